@@ -34,7 +34,9 @@ ASSUMPTIONS = [
     "HTTP dispatch (method, path prefix, the 3-segment ingress-id query) belongs to C12 and is not part of the line protocol",
 ]
 
-PATHS = ["-", "65001", "65001,65002", "65002,65001", "65001,s", "65001,65002,65003", "65002"]
+# 's' = an AS_SET segment, 'n' = the AS_SEQUENCE is cut here into two segments (invisible in the hops)
+PATHS = ["-", "65001", "65001,65002", "65002,65001", "65001,s", "65001,65002,65003", "65002",
+         "65001,n,65002", "65001,65002,n,65003", "65002,n,65001", "65001,n,65002,n,65003", "s,65001", "65001,s,65002", "65001,65002,s", "4200000001,65001"]
 COMMS = ["-", "4259840100", "4259840100,4259840200", "4294967041", "4294902426", "4259840200"]
 ASNS = ["65001", "65002", "65001", "-", "x"]
 
@@ -134,7 +136,14 @@ def gen_targeted(rng, route, asns, af_tok):
                 k, h = rng.choice(cands)
                 val = comm_text(rng, k, h)
         elif kind == "as_path":
-            val = path if (truth and path != "-" and "s" not in path) else rng.choice(["65003", "65001,65003", "65002,65002"])
+            hops = [h for h in path.split(",") if h != "n"]
+            if truth and path != "-" and "s" not in hops:
+                val = ",".join(("AS" + h) if rng.chance(15) else h for h in hops)
+            elif path != "-" and len(hops) >= 2 and "s" not in hops and rng.chance(50):
+                # almost the path: without its last hop / its first hop (what a filter that stops early would accept)
+                val = ",".join(hops[:-1] if rng.chance(50) else hops[1:])
+            else:
+                val = rng.choice(["65003", "65001,65003", "65002,65002"])
         else:
             a = asns[peer] if peer < len(asns) else "x"
             val = a if (truth and a not in ("-", "x")) else "65003"
@@ -154,7 +163,7 @@ def gen_targeted(rng, route, asns, af_tok):
 
 SEL_GOOD = [
     ("as_path", "65001"), ("as_path", "65001,65002"), ("as_path", "65002,65001"), ("as_path", "AS65001,as65002"), ("as_path", "65002"),
-    ("as_path", "65001,65002,65003"), ("as_path", "+65001"), ("as_path", "065001"),
+    ("as_path", "65001,65002,65003"), ("as_path", "+65001"), ("as_path", "065001"), ("as_path", "4200000001,65001"), ("as_path", "AS4200000001,65001"),
     ("peer_as", "65001"), ("peer_as", "65002"), ("peer_as", "AS65001"), ("peer_as", "65003"),
     ("community", "65000:100"), ("community", "65000:200"), ("community", "AS65000:100"), ("community", "NO_EXPORT"), ("community", "blackhole"),
     ("community", "0xFDE80064"), ("community", "0xFFFFFF01"), ("community", "65000:100:1"), ("community", "rt:65000:100"), ("community", "NoExport"),
@@ -414,6 +423,8 @@ def classify(case, out):
                 ks.append("q:more" + ("-nonempty" if ":m[]" not in t else "-empty"))
             if "=W" in t:
                 ks.append("q:shows-withdrawn")
+    if any(o.startswith("A ") and ",n," in o for o in case.split(";")):
+        ks.append("case:as-path-in-several-sequence-segments")
     for kw in ("select[as_path]", "select[peer_as]", "select[community]", "discard[as_path]", "discard[peer_as]", "discard[community]",
                "filter_op=all", "filter_op=any"):
         if kw in case:
@@ -522,6 +533,11 @@ def corpus():
         "Q 4 0a000000/8 discard[community]=65000:1:2&discard[peer_as]=65002&filter_op=any;Q 4 0a000000/8 select[peer_as]=65001&discard[community]=65000:1:2;"
         "Q 4 0a000000/8 select[community]=65000:100&discard[community]=ro:65000:100;Q 4 0a000000/8 select[community]=65000:100&discard[community]=rt:65000:100;"
         "Q 4 0a000000/8 select[as_path]=65002&select[community]=65000:100&discard[peer_as]=65001&filter_op=all",
+        # the AS path filter sees the whole path: cut into two / three AS_SEQUENCE segments, an AS_SET in front / in the middle / at the end
+        "P 0 65001;P 1 65002;P 2 65002;P 3 65001;A 0 0 0a000000/8 1 65001,n,65002 -;A 1 0 0a000000/8 2 65001,65002 -;A 2 0 0a000000/8 3 65001,s,65002 -;A 3 0 0a000000/8 4 65001,n,65002,n,65003 -;"
+        "A 4 0 0a000000/8 5 s,65001 -;A 5 0 0a000000/8 6 65001,65002,s -;"
+        "Q 4 0a000000/8 select[as_path]=65001,65002;Q 4 0a000000/8 select[as_path]=65001;Q 4 0a000000/8 discard[as_path]=65001,65002;Q 4 0a000000/8 select[as_path]=65001,65002,65003;"
+        "Q 4 0a000000/8 select[as_path]=65002;Q 4 0a000000/8 discard[as_path]=65001;Q 4 0a000000/8 select[as_path]=65001,65002&select[as_path]=65001,65002,65003",
         # regression of the two repaired defects: community filter, non-ASCII AS number
         "P 0 65001;A 0 0 0a000000/8 1 65001 4259840100;Q 4 0a000000/8 select[community]=65000:100;Q 4 0a000000/8 discard[community]=65000:100;Q 4 0a000000/8 select[peer_as]=%E2%82%AC;Q 4 0a000000/8 discard[as_path]=65001,%E2%82%AC",
     ]
